@@ -291,6 +291,22 @@ SPECS["C15"] = dict(
            router_part("quic", "TestVerifC15Quic", ["zz_verif_c15quic_test.go", "zz_verif_c03_test.go"], shards=1)],
 )
 
+SPECS["C17"] = dict(
+    level="model_checking",
+    engine="E1 enum",
+    state_based=False,
+    technique="exhaustive enumeration of the finite configuration matrix (address forms x dial_addr forms; peer certificates x TLS options x listener/upstream kinds) on the real constructors with intercepted dials and real crypto/tls handshakes",
+    claim="For every combination of scheme, URL host form (IPv4, bracketed IPv6 of several textual shapes incl. zone, name), port presence and dial_addr form the dialled (network, host, port) equals the "
+          "reference; for every peer certificate kind x TLS option the exchange succeeds iff the chain verifies for the URL host or verification is disabled, SNI/Host derive from the URL host, "
+          "and a listener configured to verify client certificates serves no query to a client without an acceptable certificate.",
+    trusted="crypto/tls, net/http and the OS resolver for 'localhost'; quic/h3 destinations are only observed on loopback.",
+    rule="see evidence rule written by the harness",
+    assumptions=["dial_addr spellings outside the documented 'IP or domain, port optional, @name' forms are not in the alphabet"],
+    parts=[dict(name="addr", pkg="internal/upstream", run="TestVerifC17Addr", go="go1.26", env=E3ENV, engines=E3ENGINES,
+                files=dict(UPSTREAM_COMMON, **{"harness/upstream/zz_verif_c17_test.go": "internal/upstream/zz_verif_c17_test.go"}), budget={"quick": 120, "thorough": 120}),
+           router_part("tls", "TestVerifC17TLS", ["zz_verif_c17_test.go", "zz_verif_c03_test.go"], shards=1, gomaxprocs=4)],
+)
+
 
 # --------------------------------------------------------------------------------------------
 # Properties not (yet) claimed. Kept current: every property without a SPECS entry must be here.
